@@ -894,7 +894,7 @@ class Reaction:
     def check_atomic_balance(self, tol=1e-3):
         """Check that stoichiometric atomic balance is correct."""
         atoms = self.atomic_balance_error()
-        if abs(sum(atoms.values())) > tol: 
+        if any([abs(i) > tol for i in atoms.values()]): 
             raise RuntimeError("atomic stoichiometry is unbalanced by the "
                                "following molar stoichiometric coefficients:\n "
             + "\n ".join([f"{symbol}: {value}" for symbol, value in atoms.items()])
